@@ -1,7 +1,7 @@
 #!/bin/bash
-# runs every seeded change against the quick check of its property; /repo must be clean and idle
+# runs every seeded change against the quick check of its property, each in a scratch worktree (does not touch /repo)
 cd /verif
 for d in seeded/*/; do
   n=$(basename $d); p=${n%%_*}
-  ./tools/run_seed.sh $n $p
+  ./tools/run_seed_wt.sh $n $p
 done
